@@ -651,6 +651,14 @@ impl<'a, S: Source + 'a> Constructed<'a, S> {
                 }
             )
         }
+        else if self.state == State::Unbounded {
+            // At the top level, the end of the input is the end of the
+            // values.
+            match Tag::take_opt_from(self.source)? {
+                Some(res) => res,
+                None => return Ok(None)
+            }
+        }
         else {
             Tag::take_from(self.source)?
         };
@@ -1089,8 +1097,19 @@ impl<'a, S: Source + 'a> Constructed<'a, S> {
         let mut stack = SmallVec::<[Option<Option<usize>>; 4]>::new();
 
         loop {
-            // Get a the ‘header’ of a value.
-            let (tag, constructed) = Tag::take_from(self.source)?;
+            // Get a the ‘header’ of a value. At the top level, the end of
+            // the input is the end of the values.
+            let (tag, constructed) = if
+                stack.is_empty() && self.state == State::Unbounded
+            {
+                match Tag::take_opt_from(self.source)? {
+                    Some(res) => res,
+                    None => return Ok(None)
+                }
+            }
+            else {
+                Tag::take_from(self.source)?
+            };
             let length = Length::take_from(self.source, self.mode)?;
 
             if !constructed {
